@@ -89,6 +89,7 @@ type hw struct {
 	stop        bool
 	stepNo      int
 	lastOp      string
+	curChain    string // chain whose key pigeons sign with in the current operation
 	lateIdx     int // validator that brings its pigeon up late (-1: none)
 }
 
@@ -152,8 +153,9 @@ func (w *hw) keepAlive() {
 	w.lastKA = w.c.Height
 }
 
-func altKey(name string, ver int) *ecdsa.PrivateKey {
-	h := sha256.Sum256([]byte(fmt.Sprintf("c14/alt/%s/%d", name, ver)))
+// chainKey: a pigeon uses a different key (address) on every chain, and a new one after a rotation.
+func chainKey(name, ch string, ver int) *ecdsa.PrivateKey {
+	h := sha256.Sum256([]byte(fmt.Sprintf("c14/key/%s/%s/%d", name, ch, ver)))
 	k, err := ethcrypto.ToECDSA(h[:])
 	if err != nil {
 		panic(err)
@@ -170,9 +172,15 @@ func (w *hw) registerMsg(i int) *valsettypes.MsgAddExternalChainInfoForValidator
 	}
 	sort.Strings(chs)
 	for _, ch := range chs {
+		w.setKey(v, ch)
 		m.ChainInfos = append(m.ChainInfos, world.ExtInfo(v, ch, w.regChains[i][ch]...))
 	}
 	return m
+}
+
+// setKey switches the pigeon's signing key to the one it registered (last) for chain ch.
+func (w *hw) setKey(v *chain.Account, ch string) {
+	v.EthKey = chainKey(v.Name, ch, w.keyVer[w.vidx[v.ValBech()]])
 }
 
 func (w *hw) gov(content gogoproto.Message) error {
@@ -518,6 +526,9 @@ func (w *hw) snapshotVals() []*chain.Account {
 // txBlock: queue one tx per given validator (built by mk), run the block, tolerate failing txs.
 func (w *hw) txBlock(vs []*chain.Account, mk func(v *chain.Account) sdk.Msg) bool {
 	for _, v := range vs {
+		if w.curChain != "" {
+			w.setKey(v, w.curChain)
+		}
 		m := mk(v)
 		if m == nil {
 			continue
@@ -548,6 +559,8 @@ func (w *hw) findItem(ch string, id uint64) *qItem {
 }
 
 func (w *hw) estimate(ch string, id uint64, vs []*chain.Account, base uint64) {
+	w.curChain = ch
+	defer func() { w.curChain = "" }()
 	q := world.TurnstoneQueue(ch)
 	w.op("estimate", map[string]any{"chain": ch, "id": id, "n": len(vs), "base": base})
 	k := uint64(0)
@@ -560,6 +573,8 @@ func (w *hw) estimate(ch string, id uint64, vs []*chain.Account, base uint64) {
 }
 
 func (w *hw) sign(ch string, id uint64, vs []*chain.Account) {
+	w.curChain = ch
+	defer func() { w.curChain = "" }()
 	q := world.TurnstoneQueue(ch)
 	w.op("sign", map[string]any{"chain": ch, "id": id, "n": len(vs)})
 	if w.txBlock(vs, func(v *chain.Account) sdk.Msg {
@@ -575,16 +590,17 @@ func (w *hw) sign(ch string, id uint64, vs []*chain.Account) {
 
 // report: public access data (a delivery report) by validator `by`; real call data when possible.
 func (w *hw) report(ch string, id uint64, by *chain.Account, status uint64) {
+	w.curChain = ch
+	defer func() { w.curChain = "" }()
+	w.setKey(by, ch)
 	c := w.c
 	q := world.TurnstoneQueue(ch)
 	var data []byte
 	valsetID := uint64(0)
 	func() {
 		defer func() { recover() }()
-		var qm interface{ GetId() uint64 }
 		for _, m := range world.QueueMsgs(c, q) {
 			if m.GetId() == id {
-				qm = m
 				if s, err := c.App.ValsetKeeper.GetLatestSnapshotOnChain(c.Ctx(), ch); err == nil && s != nil {
 					valsetID = s.Id
 				} else if s, err := c.App.ValsetKeeper.GetCurrentSnapshot(c.Ctx()); err == nil && s != nil {
@@ -611,7 +627,6 @@ func (w *hw) report(ch string, id uint64, by *chain.Account, status uint64) {
 				data = rtx.Hash().Bytes()
 			}
 		}
-		_ = qm
 	}()
 	if data == nil {
 		h := sha256.Sum256([]byte(fmt.Sprintf("tx/%d/%d", id, w.stepNo)))
@@ -624,6 +639,8 @@ func (w *hw) report(ch string, id uint64, by *chain.Account, status uint64) {
 }
 
 func (w *hw) reportError(ch string, id uint64, by *chain.Account) {
+	w.curChain = ch
+	defer func() { w.curChain = "" }()
 	q := world.TurnstoneQueue(ch)
 	w.op("report-error", map[string]any{"chain": ch, "id": id, "by": by.ValBech()})
 	if w.txBlock([]*chain.Account{by}, func(v *chain.Account) sdk.Msg { return world.MsgErrorData(v, q, id, []byte("execution reverted")) }) {
@@ -632,6 +649,8 @@ func (w *hw) reportError(ch string, id uint64, by *chain.Account) {
 }
 
 func (w *hw) evidence(ch string, id uint64, vs []*chain.Account) {
+	w.curChain = ch
+	defer func() { w.curChain = "" }()
 	rtx := w.rtx[id]
 	if rtx == nil {
 		return
@@ -804,7 +823,6 @@ func (w *hw) reRegister() {
 	default:
 		// key rotation: all accounts of this pigeon move to a new address
 		w.keyVer[i]++
-		v.EthKey = altKey(v.Name, w.keyVer[i])
 		what = "rotate-key"
 	}
 	w.op("re-register", map[string]any{"val": v.ValBech(), "what": what})
